@@ -195,6 +195,12 @@ def oracle(run, want):
         elif x["ev"] == "obs" and x.get("kind") == "terminate-hook-entered" and running.get(x.get("c")) and "hooks" in want:
             res.append(("hooks:terminate-hook-while-a-handler-of-the-connection-runs", "conn %d: the terminate hook is entered while a handler of the connection has not returned" % x["c"]))
             break
+    for x in run:
+        # once Shutdown has returned and everything that can run has run (no client has done anything since), a goroutine of a
+        # connection that has not ended is waiting for its client: it is left behind
+        if x["ev"] == "obs" and x.get("kind") == "alive-after-shutdown" and x.get("blocked") and "shutdown" in want:
+            res.append(("shutdown:goroutine-left-after-shutdown:" + ",".join(sorted({b[0].split(".")[1] + "@" + b[1] for b in x["blocked"]})),
+                        "Shutdown has returned and nothing more can run, yet these goroutines of connections have not ended: %s" % x["blocked"]))
     if not end:
         return res
     end = end[0]
